@@ -1,7 +1,193 @@
 import FormulaeModel.Driver.Base
-namespace FormulaeModel.Driver.C07
-open Lean FormulaeModel FormulaeModel.Driver
+import FormulaeModel.Driver.C04
+import FormulaeModel.Spec.C07
+/-
+Driver op "c07_check": histories of build / evaluate-common / evaluate-group / set-config.
 
-def handle (_op : String) (_j : Json) : Option Json := none
+Request
+  frames    : [frame]                        table of data frames (cf. Driver/C04 `frameOfJson`)
+  builds    : [{formula, frame, names, response, common, group}]
+                                             table of `design_matrices` calls with the coding
+                                             decisions observed from the implementation
+  outs      : [out]                          table of canonical outputs (implementation, in the
+                                             history and in a fresh process-state)
+  histories : [{impl: [outIdx], fresh: [outIdx], unchanged: [bool],
+                mops: [op] | null, mimpl: [outIdx]}]
+              op = ["b", buildIdx] | ["c", designIdx, frameIdx] | ["g", designIdx, frameIdx]
+                 | ["s", key, value]
+Answer, per history
+  holds     : Spec.C07.holds on the decoded (impl, fresh) pairs and the `unchanged` flags
+  bad       : positions of the pairs that differ (or do not decode)
+  model     : per op of `mops`: "same" | "diff" | "skip:<why>"  (model `step` vs implementation)
+  model_out : the model's output where it differs
+  wf        : the model's world after the history is well-formed
+-/
+namespace FormulaeModel.Driver.C07
+open Lean FormulaeModel FormulaeModel.Driver FormulaeModel.Design FormulaeModel.World
+open FormulaeModel.Driver.C04 (ratOfJson? matrixJson frameOfJson namesOfJson termSpecOfJson atomTable slicesJson)
+
+-- strict decoding of canonical outputs (anything unexpected does not decode)
+def entryOfJson? : Json → Option Entry
+  | .null => some none
+  | j => (ratOfJson? j).map some
+
+def listOfJson? {α} (f : Json → Option α) : Json → Option (List α)
+  | .arr a => a.toList.mapM f
+  | _ => none
+
+def matrixOfJson? (j : Json) : Option Matrix := listOfJson? (listOfJson? entryOfJson?) j
+
+def strOfJson? : Json → Option String
+  | .str s => some s
+  | _ => none
+
+def sliceOfJson? : Json → Option Slice
+  | .arr #[.str n, a, b] =>
+    match a.getNat?, b.getNat? with
+    | .ok s, .ok e => some ⟨n, s, e⟩
+    | _, _ => none
+  | _ => none
+
+def field? (j : Json) (k : String) : Option Json := (j.getObjVal? k).toOption
+
+def partOfJson? (j : Json) : Option (Option PartOut) :=
+  match j with
+  | .null => some none
+  | j => do
+    let m ← matrixOfJson? (← field? j "matrix")
+    let labels ← match ← field? j "labels" with
+      | .null => some none
+      | l => (listOfJson? strOfJson? l).map some
+    let sl ← listOfJson? sliceOfJson? (← field? j "slices")
+    let info ← listOfJson? strOfJson? (← field? j "info")
+    pure (some ⟨m, labels, sl, info⟩)
+
+def outOfJson? (j : Json) : Option Out := do
+  let t ← strOfJson? (← field? j "t")
+  if t == "built" then do
+    let r ← partOfJson? (← field? j "response")
+    let c ← partOfJson? (← field? j "common")
+    let g ← partOfJson? (← field? j "group")
+    pure (.built ⟨r, c, g⟩)
+  else if t == "eval" then do
+    let m ← matrixOfJson? (← field? j "matrix")
+    let sl ← listOfJson? sliceOfJson? (← field? j "slices")
+    let nf ← listOfJson? strOfJson? (← field? j "new_factors")
+    let w ← match ← field? j "warn" with
+      | .bool b => some b
+      | _ => none
+    pure (.evaluated m sl nf w)
+  else if t == "absent" then pure .absent
+  else if t == "config" then pure .configSet
+  else if t == "raised" then do pure (.raised (← strOfJson? (← field? j "cls")))
+  else if t == "nodesign" then pure .noDesign
+  else none
+
+def partJson : Option PartOut → Json
+  | none => Json.null
+  | some p => Json.mkObj [("matrix", matrixJson p.matrix),
+      ("labels", match p.labels with | some l => jStrs l | none => Json.null),
+      ("slices", slicesJson p.slices), ("info", jStrs p.info)]
+
+def outJson : Out → Json
+  | .built b => Json.mkObj [("t", "built"), ("response", partJson b.response),
+      ("common", partJson b.common), ("group", partJson b.group)]
+  | .evaluated m sl nf w => Json.mkObj [("t", "eval"), ("matrix", matrixJson m),
+      ("slices", slicesJson sl), ("new_factors", jStrs nf), ("warn", Json.bool w)]
+  | .absent => Json.mkObj [("t", "absent")]
+  | .configSet => Json.mkObj [("t", "config")]
+  | .raised c => Json.mkObj [("t", "raised"), ("cls", c)]
+  | .noDesign => Json.mkObj [("t", "nodesign")]
+
+structure BuildReq where
+  spec : BuildSpec
+  frame : Nat
+
+def buildOfJson (j : Json) : Option BuildReq :=
+  match Scanner.scan (getStr j "formula").toList with
+  | .error _ => none
+  | .ok ts =>
+    match Parser.parse Generated.parserTable ts with
+    | .error _ => none
+    | .ok e =>
+      let response := match j.getObjVal? "response" with
+        | .ok (.obj o) => some (termSpecOfJson (.obj o))
+        | _ => none
+      let group := (getArr j "group").map (fun g =>
+        let expr := match g.getObjVal? "expr" with
+          | .ok (.obj o) => some (termSpecOfJson (.obj o))
+          | _ => none
+        let factor := termSpecOfJson ((g.getObjVal? "factor").toOption.getD Json.null)
+        ({ name := getStr g "name", expr, factor } : GroupSpec))
+      some { spec := { table := atomTable e, response, common := (getArr j "common").map termSpecOfJson,
+                       group, names := namesOfJson ((j.getObjVal? "names").toOption.getD Json.null) },
+             frame := getNat j "frame" }
+
+def opOfJson (frames : Array Frame) (builds : Array (Option BuildReq)) (j : Json) : Option Op :=
+  match j with
+  | .arr #[.str "b", b] => do
+    let r ← (builds[(← b.getNat?.toOption)]?).join
+    pure (.build r.spec (← frames[r.frame]?))
+  | .arr #[.str "c", i, f] => do
+    pure (.evalCommon (← i.getNat?.toOption) (← frames[(← f.getNat?.toOption)]?))
+  | .arr #[.str "g", i, f] => do
+    pure (.evalGroup (← i.getNat?.toOption) (← frames[(← f.getNat?.toOption)]?))
+  | .arr #[.str "s", .str k, .str v] => some (.setConfig k v)
+  | _ => none
+
+def natList (j : Json) (k : String) : List Nat := (getArr j k).filterMap (fun x => x.getNat?.toOption)
+
+def isUnmodelled : Out → Bool
+  | .raised c => c.startsWith "unmodelled"
+  | _ => false
+
+def historyJson (frames : Array Frame) (builds : Array (Option BuildReq)) (outs : Array (Option Out))
+    (h : Json) : Json :=
+  let get (i : Nat) : Option Out := (outs[i]?).join
+  let impl := natList h "impl"
+  let fresh := natList h "fresh"
+  let unchanged := (getArr h "unchanged").map (fun x => match x with | .bool b => b | _ => false)
+  let decoded := (impl.zip fresh).map (fun p => (get p.1, get p.2))
+  let pairs := decoded.filterMap (fun p => match p with | (some a, some b) => some (a, b) | _ => none)
+  let complete := pairs.length == decoded.length && impl.length == fresh.length
+  let holds := complete && Spec.C07.holds pairs unchanged
+  let bad := (List.range decoded.length).filter (fun k =>
+    match decoded[k]? with
+    | some (some a, some b) => a != b
+    | _ => true)
+  let modelPart : List (String × Json) :=
+    match h.getObjVal? "mops" with
+    | .ok (.arr mops) =>
+      match mops.toList.mapM (opOfJson frames builds) with
+      | none => [("model", Json.arr #[Json.str "skip:undecodable op"])]
+      | some ops =>
+        let mouts := outputs World.init ops
+        let mimpl := natList h "mimpl"
+        let unm := (ops.zip mouts).any (fun p => match p.1 with | .build _ _ => isUnmodelled p.2 | _ => false)
+        let verdicts := (mouts.zip mimpl).map (fun p =>
+          if unm then "skip:unmodelled build in this history"
+          else if isUnmodelled p.1 then "skip:" ++ (match p.1 with | .raised c => c | _ => "")
+          else match get p.2 with
+            | some o => if o == p.1 then "same" else "diff"
+            | none => "diff")
+        let diffs := ((List.range mouts.length).zip (mouts.zip verdicts)).filterMap (fun p =>
+          if p.2.2 == "diff" then some (Json.mkObj [("k", (p.1 : Nat)), ("out", outJson p.2.1)]) else none)
+        [("model", jStrs verdicts), ("model_out", Json.arr diffs.toArray),
+         ("wf", Json.bool (run World.init ops).wf)]
+    | _ => []
+  Json.mkObj ([("holds", Json.bool holds), ("bad", Json.arr (bad.map (fun (k : Nat) => (k : Json))).toArray)]
+    ++ modelPart)
+
+def handle (op : String) (j : Json) : Option Json :=
+  match op with
+  | "c07_check" =>
+    let frames := ((getArr j "frames").map frameOfJson).toArray
+    let builds := ((getArr j "builds").map buildOfJson).toArray
+    let outs := ((getArr j "outs").map outOfJson?).toArray
+    some (Json.mkObj [("results", Json.arr ((getArr j "histories").map
+      (historyJson frames builds outs)).toArray),
+      ("undecodable_outs", Json.arr (((List.range outs.size).filter (fun i =>
+        match outs[i]? with | some (some _) => false | _ => true)).map (fun (k : Nat) => (k : Json))).toArray)])
+  | _ => none
 
 end FormulaeModel.Driver.C07
